@@ -72,3 +72,9 @@ def check(ck):
             calls = [c for c in FuncView(bk).calls() if isinstance(c.func, ast.Call) and dotted(c.func.func) == "Scalar"]
             ok = len(calls) == 1 and arg_text(calls[0].func, 0) == repr(name) and unparse(calls[0].args[0]) == f"{cls}()"
             ck.ob(f"built-in module registers {cls} as scalar {name}", ok, bk, calls[0] if calls else bk.node, construct=f"register:{name}")
+    with ck.rule("R6"):
+        # "a literal and a variable carrying the same JSON value coerce to the same result": the argument decision table
+        # (C05.R1) - a variable-bound argument is null exactly when the variable's value `is None`, so 0 / false / "" are
+        # values, as their literals are
+        from . import c05
+        c05._argument_table(ck, repo)
